@@ -1,7 +1,10 @@
 /-
-  CC.Proofs.KCL — the central identity: for every network without self-loops, over every
-  field, the row of node `n` in the code's matrix equation *is* Kirchhoff's current law at
+  CC.Proofs.KCL — the central identity: for every network (self-loop branches included: they
+  are skipped on the diagonal and have direction 0), over every field, the row of node `n` in
+  the code's matrix equation *is* Kirchhoff's current law at
   `n`:      Σ_b dir(b,n)·J_b  =  (row n of A)·x − b_n .
+  The `*_all` lemmas carry no hypothesis on self-loops; the lemmas without the suffix keep the
+  signature they had before the self-loop repair of node_analysis.py (hypothesis `b.n1 ≠ b.n2`).
 -/
 import CC.Proofs.NetBasics
 set_option linter.unusedSectionVars false
@@ -32,7 +35,7 @@ def Net.rowVS (N : Net L K) (s : Sol L K) (b : Branch L K) : K :=
 
 /-- per-branch contribution to the admittance part of the row of node `n` -/
 def g (n : L) (b : Branch L K) (m : L) : K :=
-  if n = m then (if b.n1 = n ∨ b.n2 = n then b.e.Yfin else 0)
+  if n = m then (if (b.n1 = n ∨ b.n2 = n) ∧ b.n1 ≠ b.n2 then b.e.Yfin else 0)
   else (if (b.n1 = n ∧ b.n2 = m) ∨ (b.n1 = m ∧ b.n2 = n) then - b.e.Yfin else 0)
 
 theorem Yentry_eq (N : Net L K) (n m : L) :
@@ -53,6 +56,29 @@ theorem mem_nodes_of_ne_zero (N : Net L K) {b : Branch L K} (hb : b ∈ N.branch
   · rw [mem_nodes_iff]; exact ⟨fun h => h.2, fun h => ⟨n1_mem_labels N hb, h⟩⟩
   · rw [mem_nodes_iff]; exact ⟨fun h => h.2, fun h => ⟨n2_mem_labels N hb, h⟩⟩
 
+theorem dir_self_loop (b : Branch L K) (n : L) (h : b.n1 = b.n2) : b.dir n = 0 := by
+  unfold Branch.dir; rw [h]; exact sub_self _
+
+/-- away from self-loops the direction is the three-way case split the code used before the repair -/
+theorem dir_of_ne (b : Branch L K) (n : L) (h : b.n1 ≠ b.n2) :
+    b.dir n = if b.n1 = n then 1 else if b.n2 = n then -1 else 0 := by
+  unfold Branch.dir
+  by_cases h1 : b.n1 = n
+  · have h2 : b.n2 ≠ n := fun h' => h (h1.trans h'.symm)
+    rw [if_pos h1, if_neg h2, if_pos h1, sub_zero]
+  · by_cases h2 : b.n2 = n
+    · rw [if_neg h1, if_pos h2, if_neg h1, if_pos h2, zero_sub]
+    · rw [if_neg h1, if_neg h2, if_neg h1, if_neg h2, sub_zero]
+
+theorem g_self_loop (n : L) (b : Branch L K) (m : L) (h : b.n1 = b.n2) : g n b m = 0 := by
+  unfold g
+  by_cases hm : n = m
+  · rw [if_pos hm, if_neg]; exact fun hc => hc.2 h
+  · rw [if_neg hm, if_neg]
+    rintro (⟨h1, h2⟩ | ⟨h1, h2⟩)
+    · exact hm (h1.symm.trans (h.trans h2))
+    · exact hm (h2.symm.trans (h.symm.trans h1))
+
 theorem row_branch (N : Net L K) (s : Sol L K) (n : L) (hn : n ∈ N.nodes)
     (b : Branch L K) (hb : b ∈ N.branches) (hsl : b.n1 ≠ b.n2) :
     (N.nodes.map fun m => g n b m * s.phi m).sum
@@ -60,17 +86,18 @@ theorem row_branch (N : Net L K) (s : Sol L K) (n : L) (hn : n ∈ N.nodes)
   have hnz : n ≠ N.zero := ((mem_nodes_iff N n).mp hn).2
   have hnd := nodes_nodup N
   obtain ⟨hm1, hm2⟩ := mem_nodes_of_ne_zero N hb
+  rw [dir_of_ne b n hsl]
   by_cases h1 : b.n1 = n
   · have h2 : b.n2 ≠ n := fun h => hsl (h1.trans h.symm)
     have hg : ∀ m, g n b m = (if m = n then b.e.Yfin else if m = b.n2 then - b.e.Yfin else 0) := by
       intro m; unfold g
       by_cases hm : n = m
-      · subst hm; simp [h1]
+      · subst hm; simp [h1, Ne.symm h2]
       · have : m ≠ n := fun h => hm h.symm
         simp [hm, this, h1, h2, eq_comm]
     simp only [hg]
     rw [sum_two hnd n b.n2 (Ne.symm h2)]
-    simp only [hn, if_true, Branch.dir, h1, Net.pot, hnz, if_false]
+    simp only [hn, if_true, h1, Net.pot, hnz, if_false]
     by_cases hz : b.n2 = N.zero
     · have hn2 : b.n2 ∉ N.nodes := fun h => (hm2.mp h) hz
       rw [if_neg hn2]; simp [hz]
@@ -80,12 +107,12 @@ theorem row_branch (N : Net L K) (s : Sol L K) (n : L) (hn : n ∈ N.nodes)
     · have hg : ∀ m, g n b m = (if m = n then b.e.Yfin else if m = b.n1 then - b.e.Yfin else 0) := by
         intro m; unfold g
         by_cases hm : n = m
-        · subst hm; simp [h2]
+        · subst hm; simp [h2, h1]
         · have : m ≠ n := fun h => hm h.symm
           simp [hm, this, h1, h2, eq_comm]
       simp only [hg]
       rw [sum_two hnd n b.n1 (Ne.symm h1)]
-      simp only [hn, if_true, Branch.dir, h1, h2, Net.pot, hnz, if_false]
+      simp only [hn, if_true, h1, h2, Net.pot, hnz, if_false]
       by_cases hz : b.n1 = N.zero
       · have hn1 : b.n1 ∉ N.nodes := fun h => (hm1.mp h) hz
         rw [if_neg hn1]; simp [hz]
@@ -96,23 +123,31 @@ theorem row_branch (N : Net L K) (s : Sol L K) (n : L) (hn : n ∈ N.nodes)
         by_cases hm : n = m
         · subst hm; simp [h1, h2]
         · simp [hm, h1, h2]
-      simp [hg, Branch.dir, h1, h2]
+      simp [hg, h1, h2]
+
+/-- the same for every branch: a self-loop contributes nothing to any row -/
+theorem row_branch_all (N : Net L K) (s : Sol L K) (n : L) (hn : n ∈ N.nodes)
+    (b : Branch L K) (hb : b ∈ N.branches) :
+    (N.nodes.map fun m => g n b m * s.phi m).sum
+      = b.dir n * (b.e.Yfin * (N.pot s b.n1 - N.pot s b.n2)) := by
+  by_cases hsl : b.n1 = b.n2
+  · simp [g_self_loop n b _ hsl, dir_self_loop b n hsl]
+  · exact row_branch N s n hn b hb hsl
 
 theorem Ival_of_VS {e : Elem K} (h : e.isIdealVS = true) : e.Ival = 0 := by
   cases e with
   | norton Z V => simp [Elem.isIdealVS] at h; simp [Elem.Ival, h]
   | thevenin Y I => simp [Elem.isIdealVS] at h
 
-theorem Q_eq_neg_dir (N : Net L K) (b : Branch L K) (n : L) (hn : n ≠ N.zero) (hsl : b.n1 ≠ b.n2) :
+theorem Q_eq_neg_dir_all (N : Net L K) (b : Branch L K) (n : L) (hn : n ≠ N.zero) :
     N.Qentry b n = - b.dir n := by
   unfold Net.Qentry Branch.dir
-  by_cases h2 : b.n2 = n
-  · have h1 : b.n1 ≠ n := fun h => hsl (h.trans h2.symm)
-    have : b.n2 ≠ N.zero := h2 ▸ hn
-    simp [h1, h2, hn]
-  · by_cases h1 : b.n1 = n
-    · simp [h1, h2, hn]
-    · simp [h1, h2]
+  have e1 : (b.n1 = n ∧ b.n1 ≠ N.zero) ↔ b.n1 = n := ⟨fun h => h.1, fun h => ⟨h, h ▸ hn⟩⟩
+  have e2 : (b.n2 = n ∧ b.n2 ≠ N.zero) ↔ b.n2 = n := ⟨fun h => h.1, fun h => ⟨h, h ▸ hn⟩⟩
+  simp only [e1, e2, neg_sub]
+
+theorem Q_eq_neg_dir (N : Net L K) (b : Branch L K) (n : L) (hn : n ≠ N.zero) (hsl : b.n1 ≠ b.n2) :
+    N.Qentry b n = - b.dir n := Q_eq_neg_dir_all N b n hn
 
 /-- the row of a voltage source is the potential difference across it -/
 theorem rowVS_eq (N : Net L K) (s : Sol L K) (b : Branch L K) (hb : b ∈ N.branches)
@@ -121,7 +156,7 @@ theorem rowVS_eq (N : Net L K) (s : Sol L K) (b : Branch L K) (hb : b ∈ N.bran
   have hnd := nodes_nodup N
   obtain ⟨hm1, hm2⟩ := mem_nodes_of_ne_zero N hb
   have hd : ∀ m, b.dir m * s.phi m = (if m = b.n1 then (1 : K) else if m = b.n2 then -1 else 0) * s.phi m := by
-    intro m; unfold Branch.dir
+    intro m; rw [dir_of_ne b m hsl]
     by_cases h1 : b.n1 = m
     · simp [h1]
     · have : m ≠ b.n1 := fun h => h1 h.symm
@@ -141,9 +176,18 @@ theorem rowVS_eq (N : Net L K) (s : Sol L K) (b : Branch L K) (hb : b ∈ N.bran
       rw [if_pos (hm1.mpr hz1), if_neg h2n, if_neg hz1, if_pos hz2]; ring
     · rw [if_pos (hm1.mpr hz1), if_pos (hm2.mpr hz2), if_neg hz1, if_neg hz2]; ring
 
+/-- the same for every ideal voltage source: the row of a self-loop source is zero, and so is the
+potential difference across it -/
+theorem rowVS_eq_all (N : Net L K) (s : Sol L K) (b : Branch L K) (hb : b ∈ N.branches) :
+    N.rowVS s b = N.pot s b.n1 - N.pot s b.n2 := by
+  by_cases hsl : b.n1 = b.n2
+  · unfold Net.rowVS
+    simp [dir_self_loop b _ hsl, hsl]
+  · exact rowVS_eq N s b hb hsl
+
 /-- **KCL identity.** -/
-theorem kcl_identity (N : Net L K) (s : Sol L K) (hids : N.ids.Nodup)
-    (hsl : ∀ b ∈ N.branches, b.n1 ≠ b.n2) (n : L) (hn : n ∈ N.nodes) :
+theorem kcl_identity_all (N : Net L K) (s : Sol L K) (hids : N.ids.Nodup)
+    (n : L) (hn : n ∈ N.nodes) :
     (N.branches.map fun b => b.dir n * N.J s b).sum = N.rowNode s n - N.rhsNode n := by
   have hnz : n ≠ N.zero := ((mem_nodes_iff N n).mp hn).2
   -- admittance part of the row, branch by branch
@@ -156,7 +200,7 @@ theorem kcl_identity (N : Net L K) (s : Sol L K) (hids : N.ids.Nodup)
     apply congrArg; apply List.map_congr_left
     intro b hb
     have hb' : b ∈ N.branches := (List.mem_filter.mp hb).1
-    exact row_branch N s n hn b hb' (hsl b hb')
+    exact row_branch_all N s n hn b hb'
   -- right-hand side
   have hR : N.rhsNode n = - (N.nonVS.map fun b => b.dir n * b.e.Ival).sum := by
     unfold Net.rhsNode
@@ -168,7 +212,7 @@ theorem kcl_identity (N : Net L K) (s : Sol L K) (hids : N.ids.Nodup)
       apply List.map_congr_left; intro b hb
       by_cases h0 : b.e.Ival = 0
       · simp [Elem.isCS, h0]
-      · simp [Elem.isCS, h0, Q_eq_neg_dir N b n hnz (hsl b hb)]
+      · simp [Elem.isCS, h0, Q_eq_neg_dir_all N b n hnz]
     rw [h1, ← neg_sum_map]
     congr 1
     rw [sum_split_filter N.branches (fun b => !b.e.isIdealVS)]
@@ -202,5 +246,11 @@ theorem kcl_identity (N : Net L K) (s : Sol L K) (hids : N.ids.Nodup)
   rw [hA, hB, hR]
   unfold Net.rowNode
   rw [hY]; ring
+
+/-- **KCL identity**, with the signature it had before the self-loop repair -/
+theorem kcl_identity (N : Net L K) (s : Sol L K) (hids : N.ids.Nodup)
+    (hsl : ∀ b ∈ N.branches, b.n1 ≠ b.n2) (n : L) (hn : n ∈ N.nodes) :
+    (N.branches.map fun b => b.dir n * N.J s b).sum = N.rowNode s n - N.rhsNode n :=
+  kcl_identity_all N s hids n hn
 
 end CC
